@@ -378,7 +378,7 @@ def g_Circle(r, centred=False):
 
 
 def g_Polygon(r, n=None):
-    n = n or (r.randint(3, 6) if r.random() < 0.97 else 620)
+    n = n or (r.randint(3, 6) if r.random() < 0.985 else 510)
     cx, cy = (grid(r, -20, 20, 3), grid(r, -10, 10, 3)) if r.random() < 0.85 else (grid(r, 2000, 9000, 3), 1.0)
     rad = grid(r, 1.0, 3.0, 3) if n < 50 else 40.0
     ph = r.uniform(0, 1)
@@ -624,7 +624,7 @@ def g_StopLine(r):
 
 
 def g_Lanelet(r, lid=None, n=None, minimal=None):
-    n = n or (r.randint(2, 5) if r.random() < 0.96 else 520)
+    n = n or (r.randint(2, 5) if r.random() < 0.98 else 502)
     x0, y0 = (grid(r, -50, 50, 3), grid(r, -20, 20, 3)) if r.random() < 0.85 else (grid(r, 2000, 9000, 3), 0.5)
     right = polyline(r, n, x0, y0)
     left = [[p[0], round(p[1] + 3.0, 4)] for p in right]
